@@ -72,10 +72,11 @@ def listMin : List K → Option K
     | none => some x
     | some m => some (smin x m)
 
-/-- a threshold below every observed distance (code: `scores_sorted[0] + 1` in score space) -/
+/-- a threshold below every observed distance (code, in score space: the larger of `scores_sorted[0] + 1` and
+`np.nextafter(scores_sorted[0], inf)` — beyond 2**53 adding 1 does not change a binary64 number) -/
 def rejectAll (ds : List K) : K := match listMin ds with
   | none => 0
-  | some m => m - 1
+  | some m => smin (m - 1) (Scalar.below m)
 
 def cands (ds : List K) : List K := rejectAll ds :: ds
 
